@@ -1,5 +1,5 @@
 (* C11 driver.  Input, one per line:
-     (<dump-path> <fixed 0|1> <numeric 0|1> (<class name cps> ...) (<extension cps>))
+     (<dump-path> <fixed 0|1> <f3 0|1> <f4 0|1> <numeric 0|1> (<class name cps> ...) (<extension cps>))
    Output: ((codes...) <value>)   codes: V = VALUE_INVALID, I = UNITS_INVALID, M = UNITS_MISSING
            value: none | (q <num> <den>) | (exn <name>)      integers in binary: [-]b1011 or 0
    The schema dump (written by the translator from the same dict as coq/Gen/Units_<v>.v) is
@@ -48,14 +48,16 @@ let code_sx (c : code) : sx = A (match c with VALUE_INVALID -> "V" | UNITS_INVAL
 let () = main_loop (fun x ->
   ignore (force_types O N0);
   match x with
-  | L [A path; fx; num; L cls; ext] ->
+  | L [A path; fx; x3; x4; num; L cls; ext] ->
     let s = load path in
     let fixed = sx_bool fx in
+    let f3 = sx_bool x3 in
+    let f4 = sx_bool x4 in
     let t = { t_name = []; t_classes = List.map sx_str cls; t_numeric = sx_bool num } in
     let e = sx_str ext in
-    let codes = validate_units s t e in
+    let codes = validate_units f3 f4 s t e in
     let cs = tag_unit_classes s t in
-    let v = match value_as_default_unit fixed s cs e with
+    let v = match value_as_default_unit fixed f3 f4 s cs e with
       | Exn ex -> L [A "exn"; A (exn_name ex)]
       | Ok None -> A "none"
       | Ok (Some q) -> let r = qred q in L [A "q"; z_sx r.qnum; z_sx (Zpos r.qden)] in
